@@ -559,6 +559,7 @@ func runC05(c *Ctx) {
 		c.Anchor("NewBaseExporter")
 	}
 	runC05More(c)
+	runC05NoErrAssert(c)
 }
 
 // runC05More: R7 the retry sender is stopped by every shutdown (shared with C03.R1), R8 error classifiers search
